@@ -271,8 +271,23 @@ class Monitor:
             if kind == "limitation":
                 key = "disagree/astral-string/limitation:" + detail
             else:
-                # not one of the documented limitations: name it after a minimal pattern
+                # not one of the documented limitations.  First see whether the renderer
+                # is to blame (parse(render(rewritten tree)) != rewritten tree, judged by
+                # the repository's own parser/dump as in C16); otherwise name the finding
+                # after a delta-minimised pattern.
                 minimal = None
+                cause = self.rewritten_tree_roundtrip(pattern)
+                if cause is not None:
+                    key = "disagree/rewritten-tree-not-rendered-faithfully|" + cause
+                    chk.violation(
+                        key,
+                        dict(
+                            witness, string=s,
+                            original_fullmatch_match_search=a,
+                            fixed_on_units_fullmatch_match_search=b,
+                        ),
+                    )
+                    return
                 if self.shrinks_left > 0:
                     self.shrinks_left -= 1
                     chk.count("violating_patterns_minimised")
@@ -313,6 +328,25 @@ class Monitor:
                     "limits": limits,
                 }
             )
+
+    def rewritten_tree_roundtrip(self, pattern: str) -> Optional[str]:
+        """First dump difference between the rewritten tree and parse(render(it))."""
+        from vf.checks.c16 import _first_dump_difference
+
+        retree = self.retree
+        try:
+            tree, error = self.real_parse([pattern])
+            if tree is None:
+                return None
+            retree.fix_for_utf16_regex_in_place(tree)
+            before = retree.dump(tree)
+            again, error = self.real_parse(retree.render(tree))
+            if again is None:
+                return "rendering-rejected"
+            after = retree.dump(again)
+        except Exception:  # noqa
+            return None
+        return None if before == after else _first_dump_difference(before, after)
 
     @staticmethod
     def classify(ir: list, s: str) -> Tuple[str, str]:
@@ -367,7 +401,7 @@ class Monitor:
             except rg.MatchTimeout:
                 return False
 
-        minimal = rg.shrink_pattern(pattern, still_fails, seconds=8.0)
+        minimal = rg.shrink_pattern(pattern, still_fails, seconds=20.0)
         try:
             with rg.time_limit(2.0):
                 extra = rg.sample_strings(minimal, rng, 40, allow_surrogates=False)
